@@ -17,23 +17,28 @@ RES = pathlib.Path('/tmp/dev')
 def main():
     OUT.mkdir(exist_ok=True)
     rows = []
+    rnd = int(sys.argv[sys.argv.index('--round') + 1]) if '--round' in sys.argv else 1
+    off = 3 * (rnd - 1)
+    pre = '' if rnd == 1 else f'r{rnd}_'
     for i in range(1, 21):
         prop = f'C{i:02d}'
         for k in (1, 2, 3):
             sd = WT / prop / 'seeds' / str(k)
             if not (sd / 'patch.diff').exists():
                 continue
-            first = RES / f'seed_{prop}_{k}.json'
-            final = RES / f'final_{prop}_{k}.json'
+            first = RES / f'{pre}seed_{prop}_{k}.json'
+            final = RES / f'{pre}final_{prop}_{k}.json'
             if not final.exists():
                 print('no final result for', prop, k)
                 continue
             f0 = json.loads(first.read_text()) if first.exists() else {}
             f1 = json.loads(final.read_text())
+            if not f0:
+                f0 = f1
             if f1.get('demo_clean_rc') != 0 or f1.get('demo_patched_rc') in (0, None) or not f0.get('tests_same', False):
                 print('NOT CONFIRMED', prop, k, f1.get('demo_clean_rc'), f1.get('demo_patched_rc'), f0.get('tests_same'))
                 continue
-            sid = f'{prop}-{k}'
+            sid = f'{prop}-{k + off}'
             dst = OUT / sid
             dst.mkdir(exist_ok=True)
             shutil.copy(sd / 'patch.diff', dst / 'patch.diff')
